@@ -278,6 +278,13 @@ class _Expr(ast.NodeTransformer):
                 v = None
             if isinstance(v, int):
                 return ast.Constant(v)
+        # a + (b + c)  ->  (a + b) + c      (concatenation and integer addition are associative; this code base adds nothing else)
+        if isinstance(node.op, ast.Add) and isinstance(node.right, ast.BinOp) and isinstance(node.right.op, ast.Add) and not isinstance(node.left, ast.Tuple):
+            return self.visit_BinOp(ast.BinOp(left=ast.BinOp(left=node.left, op=ast.Add(), right=node.right.left), op=ast.Add(), right=node.right.right)) \
+                if False else ast.BinOp(left=ast.BinOp(left=node.left, op=ast.Add(), right=node.right.left), op=ast.Add(), right=node.right.right)
+        if isinstance(node.op, ast.Add) and isinstance(node.left, ast.List) and not isinstance(node.right, ast.Constant):
+            right = list(node.right.elts) if isinstance(node.right, ast.List) else [ast.Starred(value=node.right, ctx=ast.Load())]
+            return ast.List(elts=list(node.left.elts) + right, ctx=ast.Load())
         # (a, b) + t  ->  (a, b, *t)
         if isinstance(node.op, ast.Add) and isinstance(node.left, ast.Tuple) and not isinstance(node.right, ast.Constant):
             right = list(node.right.elts) if isinstance(node.right, ast.Tuple) else [ast.Starred(value=node.right, ctx=ast.Load())]
@@ -727,6 +734,8 @@ def _norm_stmt(st, fn_locals):
             if isinstance(n, ast.FormattedValue) and isinstance(n.format_spec, ast.JoinedStr) and len(n.format_spec.values) == 1 \
                     and isinstance(n.format_spec.values[0], ast.Constant) and n.format_spec.values[0].value == "d":
                 n.format_spec = None
+            elif isinstance(n, ast.FormattedValue) and isinstance(n.format_spec, ast.Constant) and n.format_spec.value == "d":
+                n.format_spec = None
     if isinstance(st, ast.Raise) and isinstance(st.exc, ast.Name) and st.exc.id in _class_names():
         # raising a class instantiates it without arguments
         return ast.Raise(exc=ast.Call(func=st.exc, args=[], keywords=[]), cause=st.cause)
@@ -1148,6 +1157,9 @@ def _propagate(fn):
                         break
             if counts[t][0] == 1 and _simple_pure(v) and not later_store and (_stable(v, attr_stores, params) or (isinstance(v, ast.Constant) and (v.value is None or isinstance(v.value, (bool, int))))) and _size(v) <= 12 and t not in _captured(fn):
                 loads = [n for n in order if isinstance(n, ast.Name) and isinstance(n.ctx, ast.Load) and n.id == t]
+                compound = not isinstance(v, (ast.Name, ast.Attribute, ast.Constant))
+                # a compound value read once is an ordinary temporary (handled by _inline_temps, same rules on both sides); read several
+                # times it is a common subexpression and is expanded
                 if loads and all(pos[id(n)] > here for n in loads):
                     _remove_stmt(fn, st)
                     _Subst({t: v}).visit(fn)
@@ -1178,8 +1190,7 @@ def _stable(e, attr_stores, params=("self", "cls")):
             parts = [sl.lower, sl.upper, sl.step] if isinstance(sl, ast.Slice) else [sl]
             if not all(x is None or (isinstance(x, ast.Constant) and isinstance(x.value, int)) or (isinstance(x, ast.UnaryOp) and isinstance(x.operand, ast.Constant)) for x in parts):
                 return False
-        elif isinstance(n, (ast.BinOp, ast.Compare, ast.BoolOp, ast.IfExp, ast.List, ast.Dict, ast.Set, ast.ListComp, ast.SetComp, ast.DictComp, ast.GeneratorExp,
-                            ast.JoinedStr, ast.Starred)):
+        elif isinstance(n, (ast.List, ast.Dict, ast.Set, ast.ListComp, ast.SetComp, ast.DictComp, ast.GeneratorExp, ast.JoinedStr, ast.Starred)):
             return False        # a display builds a new (mutable) object on every evaluation
     return True
 
@@ -2175,6 +2186,9 @@ def normal_ast(node, helpers=None, in_class=False, single_base=None, depth=0):
             counts = _local_counts(node)
             node.body = _norm_block(node.body, counts) or [ast.Pass()]
             node = _Expr(single_base).visit(node)
+            for n in ast.walk(node):
+                if isinstance(n, ast.Return) and isinstance(n.value, ast.Constant) and n.value.value is None:
+                    n.value = None
             if _dump(node) == before:
                 break
         # canonical names for the locals, in order of first occurrence; adjacent independent pure assignments in one order
